@@ -22,7 +22,7 @@ def fuzz(ctx):
     """cargo-fuzz target (libFuzzer + ASan) running the same monitor on mutated byte strings.
     Exit codes of the fuzzer are never trusted: artifacts are triaged through the monitor."""
     log = ctx["log"]
-    fdir = os.path.join(ctx["VERIF"], "fuzz")
+    fdir = os.path.join(ctx["HARNESS"], "fuzz")
     env = ctx["cargo_env"]()
     env["RUSTUP_TOOLCHAIN"] = "nightly"
     art = os.path.join(fdir, "artifacts", "c04")
@@ -37,9 +37,9 @@ def fuzz(ctx):
             open(os.path.join(corpus, f"sample{i}"), "w").write(line)
     secs = int(480 * ctx["scale"]) or 30
     t0 = time.time()
-    cmd = ["cargo", "fuzz", "run", "c04", "--fuzz-dir", fdir, "--target-dir", ctx["TARGET"] + "-fuzz", "--", f"-max_total_time={secs}", "-timeout=10", "-fork=16", "-ignore_crashes=1", "-ignore_timeouts=1", "-ignore_ooms=1", f"-seed={ctx['seed'] % 2**31}", f"-dict={os.path.join(fdir, 'oh.dict')}", f"-artifact_prefix={art}/", "-max_len=200", corpus]
+    cmd = ["cargo", "fuzz", "run", "c04", "--target-dir", ctx["TARGET"] + "-fuzz", "--", f"-max_total_time={secs}", "-timeout=10", "-fork=16", "-ignore_crashes=1", "-ignore_timeouts=1", "-ignore_ooms=1", f"-seed={ctx['seed'] % 2**31}", f"-dict={os.path.join(fdir, 'oh.dict')}", f"-artifact_prefix={art}/", "-max_len=200", corpus]
     try:
-        p = subprocess.run(cmd, cwd=fdir, env=env, stdout=subprocess.PIPE, stderr=subprocess.STDOUT, text=True, timeout=secs + 1800)
+        p = subprocess.run(cmd, cwd=ctx["HARNESS"], env=env, stdout=subprocess.PIPE, stderr=subprocess.STDOUT, text=True, timeout=secs + 1800)
     except subprocess.TimeoutExpired:
         ctx["inconclusive"].append("cargo fuzz hit the watchdog")
         return
